@@ -41,6 +41,9 @@ pub struct Case {
     pub nested: Vec<String>,
     /// individual variant inside a (class, pos) family (shape of a random program); never part of a key
     pub variant: String,
+    /// when non-empty: appended to the key as ":<tail>" and only the FIRST failing case of the
+    /// (detector, class, direction) is reported (families enumerated in ascending order: smallest k in the key)
+    pub key_tail: String,
 }
 
 pub struct Payload {
@@ -248,7 +251,7 @@ fn case_from_prog(p: gen::Prog, det: Option<Det>, class: &str, kind: Kind, paylo
     let pos = pos_of_tag(&p.tag);
     let span = p.src.find(payload).map(|a| (a, a + payload.len()));
     let nested: Vec<String> = if pos.contains('>') { pos.split('>').map(|x| x.to_string()).collect() } else { vec![] };
-    Case { src: p.src, focus: det, class: class.to_string(), kind, pos, span, nested, variant: String::new() }
+    Case { src: p.src, focus: det, class: class.to_string(), kind, pos, span, nested, variant: String::new(), key_tail: String::new() }
 }
 
 fn place_payload(p: &Payload, out: &mut Vec<Case>) {
@@ -276,6 +279,7 @@ fn place_payload_nested(p: &Payload, rng: &mut Rng, n: usize, out: &mut Vec<Case
                 span,
                 nested: vec![format!("stmt:{}", n1), format!("stmt:{}", n2)],
                 variant: String::new(),
+                key_tail: String::new(),
             });
         }
     } else {
@@ -290,17 +294,110 @@ fn place_payload_nested(p: &Payload, rng: &mut Rng, n: usize, out: &mut Vec<Case
     }
 }
 
+
+pub fn dec_sub_one(s: &str) -> String {
+    let mut d: Vec<u8> = s.bytes().rev().map(|b| b - b'0').collect();
+    let mut i = 0;
+    while i < d.len() {
+        if d[i] == 0 {
+            d[i] = 9;
+            i += 1;
+        } else {
+            d[i] -= 1;
+            break;
+        }
+    }
+    while d.len() > 1 && *d.last().unwrap() == 0 {
+        d.pop();
+    }
+    d.iter().rev().map(|x| (b'0' + *x) as char).collect()
+}
+
+fn with_separators(p: &str) -> String {
+    let mut sep = String::new();
+    for (i, ch) in p.chars().enumerate() {
+        if i > 0 && (p.len() - i) % 3 == 0 {
+            sep.push('_');
+        }
+        sep.push(ch);
+    }
+    sep
+}
+
+/// shift_math: the whole family 2^k (k = 0..=300) and its neighbours, in the base statement position,
+/// enumerated with k ascending so that the smallest failing k names the key
+pub fn shift_math_family() -> Vec<Case> {
+    let mut out = vec![];
+    let forms: [(&str, &str); 3] = [("mul-right", "x * @L@"), ("mul-left", "@L@ * x"), ("div", "x / @L@")];
+    let mut push = |class: &str, kind: Kind, k: u32, form: usize, lit: &str| {
+        let (fname, ft) = forms[form % 3];
+        let expr = ft.replace("@L@", lit);
+        let src = gen::file_with_stmt(&format!("{};", expr));
+        let span = src.find(&expr).map(|a| (a, a + expr.len()));
+        out.push(Case {
+            src,
+            focus: Some(Det::ShiftMath),
+            class: class.to_string(),
+            kind,
+            pos: "stmt-expr".to_string(),
+            span,
+            nested: vec![],
+            variant: format!("k={}:{}", k, fname),
+            key_tail: k.to_string(),
+        });
+    };
+    let pows: Vec<String> = (0..=300u32).map(pow2_string).collect();
+    for k in 0..=300u32 {
+        for f in 0..3 {
+            push("power-of-two", Canon, k, f, &pows[k as usize]);
+        }
+    }
+    for k in 2..=300u32 {
+        for f in 0..3 {
+            push("power-of-two-plus-one", Near, k, f, &dec_add_one(&pows[k as usize]));
+        }
+    }
+    for k in 2..=300u32 {
+        for f in 0..3 {
+            push("power-of-two-minus-one", Near, k, f, &dec_sub_one(&pows[k as usize]));
+        }
+    }
+    for k in 0..=300u32 {
+        let p = &pows[k as usize];
+        if p.len() > 3 {
+            for f in 0..3 {
+                push("power-of-two-with-separators", Canon, k, f, &with_separators(p));
+            }
+        }
+    }
+    for k in 0..=300u32 {
+        for j in 1..=3usize {
+            push("power-of-two-scaled-with-negative-exponent", Canon, k, k as usize + j, &format!("{}{}e-{}", pows[k as usize], "0".repeat(j), j));
+        }
+    }
+    for k in 0..=300u32 {
+        for j in 1..=3usize {
+            push("power-of-two-with-positive-exponent", Near, k, k as usize + j, &format!("{}e{}", pows[k as usize], j));
+        }
+    }
+    for k in 0..=300u32 {
+        push("power-of-two-with-leading-zeros", Canon, k, k as usize, &format!("00{}", pows[k as usize]));
+    }
+    out
+}
+
 pub fn corpus_c05(tier: &str, rng: &mut Rng) -> Vec<Case> {
     let mut out = vec![];
     for p in C05_PAYLOADS {
         place_payload(p, &mut out);
     }
+    out.extend(shift_math_family());
     let n = if tier == "thorough" { 250 } else { 12 };
     for p in C05_PAYLOADS {
         place_payload_nested(p, rng, n, &mut out);
     }
     for g in gen::sink() {
-        out.push(Case { src: g.src, focus: None, class: g.tag.clone(), kind: Kind::Mixed, pos: "file".into(), span: None, nested: vec![], variant: String::new() });
+        out.push(Case { src: g.src, focus: None, class: g.tag.clone(), kind: Kind::Mixed, pos: "file".into(), span: None, nested: vec![], variant: String::new(), key_tail: String::new() });
     }
     out
 }
@@ -311,7 +408,7 @@ pub fn corpus_c05(tier: &str, rng: &mut Rng) -> Vec<Case> {
 pub const H: &str = "pragma solidity 0.8.10;\n";
 
 fn file_case(det: Option<Det>, class: &str, kind: Kind, pos: &str, src: String) -> Case {
-    Case { src, focus: det, class: class.to_string(), kind, pos: pos.to_string(), span: None, nested: vec![], variant: String::new() }
+    Case { src, focus: det, class: class.to_string(), kind, pos: pos.to_string(), span: None, nested: vec![], variant: String::new(), key_tail: String::new() }
 }
 
 pub const VAR_TYPES: &[(&str, &str, &str)] = &[
@@ -428,7 +525,10 @@ pub fn random_declarations(rng: &mut Rng, small: bool) -> String {
                     let us = *rng.pick(&["", "_"]);
                     let name = format!("{}sv{}", us, uid);
                     let init = if m == "constant" || rng.below(4) == 0 { " = 1" } else { "" };
-                    let attrs: Vec<&str> = [vis, m].iter().filter(|a| !a.is_empty()).cloned().collect();
+                    // (the parser rejects `override` after a function type)
+                    let ovr = if ty.starts_with("function") { "" } else { *rng.pick(&["", "", "", "override"]) };
+                    let mut attrs: Vec<&str> = [vis, m, ovr].iter().filter(|a| !a.is_empty()).cloned().collect();
+                    rng.shuffle(&mut attrs);
                     src.push_str(&format!("    {} {} {}{};\n", ty, attrs.join(" "), name, init).replace("  ", " ").replace("  ", " "));
                     vars.push(name);
                 }
@@ -685,6 +785,140 @@ pub const SELFDESTRUCT_FORMS: &[(&str, Kind, &str)] = &[
 
 const SD_SCAFFOLD: &str = "contract S {\n    address owner;\n    function ext() external {}\n    @M@\n}\n";
 
+
+// ---------------------------------------------------------------------------------------------
+// unprotected_selfdestruct: two functions with the SAME NAME, one protected (P), one not (U)
+// ---------------------------------------------------------------------------------------------
+/// (name, attributes, guard statements) -- the selfdestruct of such a function must never be reported
+pub const SD_PROTECTED: &[(&str, &str, &str)] = &[
+    ("only-modifier", "public onlyOwner", ""),
+    ("only-exact-modifier", "external only", ""),
+    ("only-inside-name", "public isonlyme(1)", ""),
+    ("require-left", "public", "require(msg.sender == @O@);"),
+    ("require-right", "external", "require(@O@ == msg.sender, \"no\");"),
+    ("require-ne-right", "public", "require(address(0) != msg.sender);"),
+    ("check-call", "public", "check(msg.sender);"),
+    ("nested-check-call", "external", "require(isOwner(msg.sender));"),
+    ("internal", "internal", ""),
+];
+/// (name, attributes, statements before the call, the call) -- must be reported
+pub const SD_UNPROTECTED: &[(&str, &str, &str, &str)] = &[
+    ("unguarded", "public", "", "selfdestruct(payable(@O@));"),
+    ("payout-to-sender", "external", "", "selfdestruct(payable(msg.sender));"),
+    ("other-modifier-tx-origin", "public auth", "require(tx.origin == @O@);", "suicide(@O@);"),
+];
+
+fn sd_function(head: &str, attrs: &str, guard: &str, call: &str, owner: &str) -> String {
+    format!("    {} {} {{ {} {} }}\n", head, attrs, guard.replace("@O@", owner), call.replace("@O@", owner)).replace("{  ", "{ ")
+}
+
+/// (position class, variant, source): P and U share a name
+pub fn same_name_selfdestruct_files() -> Vec<(String, String, String)> {
+    let mut out = vec![];
+    for (pn, pattrs, pguard) in SD_PROTECTED {
+        for (un, uattrs, uguard, ucall) in SD_UNPROTECTED {
+            let pcall = "selfdestruct(payable(@O@));";
+            for p_first in [true, false] {
+                let order = if p_first { "protected-first" } else { "unprotected-first" };
+                let variant = format!("{}+{}:{}", pn, un, order);
+                // overloads in one contract
+                let fp = sd_function("function kill()", pattrs, pguard, pcall, "ownerA");
+                let fu = sd_function("function kill(uint q)", uattrs, uguard, ucall, "ownerA");
+                let (a, b) = if p_first { (&fp, &fu) } else { (&fu, &fp) };
+                out.push(("overload".to_string(), variant.clone(), format!("{}contract S {{\n    address ownerA;\n{}{}}}\n", H, a, b)));
+                // fallback + receive (both unnamed); only for forms that are external-compatible
+                if !pattrs.contains("internal") {
+                    let pa = pattrs.replace("public", "external");
+                    let ua = uattrs.replace("public", "external");
+                    for p_is_fallback in [true, false] {
+                        let (ph, uh) = if p_is_fallback { ("fallback()", "receive()") } else { ("receive()", "fallback()") };
+                        let pay = |h: &str, a: &str| if h.starts_with("receive") { a.replacen("external", "external payable", 1) } else { a.to_string() };
+                        let fp = sd_function(ph, &pay(ph, &pa), pguard, pcall, "ownerA");
+                        let fu = sd_function(uh, &pay(uh, &ua), uguard, ucall, "ownerA");
+                        let (a, b) = if p_first { (&fp, &fu) } else { (&fu, &fp) };
+                        out.push(("fallback-receive".to_string(), format!("{}:{}", variant, if p_is_fallback { "protected-fallback" } else { "protected-receive" }), format!("{}contract S {{\n    address ownerA;\n{}{}}}\n", H, a, b)));
+                    }
+                }
+                // two contracts, three contracts
+                let cp = |name: &str, owner: &str| format!("contract {} {{\n    address {};\n{}}}\n", name, owner, sd_function("function kill()", pattrs, pguard, pcall, owner));
+                let cu = |name: &str, owner: &str| format!("contract {} {{\n    address {};\n{}}}\n", name, owner, sd_function("function kill()", uattrs, uguard, ucall, owner));
+                let two = if p_first { format!("{}{}{}", H, cp("Owned", "ownerA"), cu("Open", "ownerB")) } else { format!("{}{}{}", H, cu("Open", "ownerB"), cp("Owned", "ownerA")) };
+                out.push(("cross-contract".to_string(), format!("{}:two-contracts", variant), two));
+                let three = if p_first {
+                    format!("{}{}{}{}", H, cp("Owned", "ownerA"), cu("Open", "ownerB"), cp("Owned2", "ownerC"))
+                } else {
+                    format!("{}{}{}{}", H, cu("Open", "ownerB"), cp("Owned", "ownerA"), cu("Open2", "ownerC"))
+                };
+                out.push(("cross-contract".to_string(), format!("{}:three-contracts", variant), three));
+            }
+        }
+    }
+    out
+}
+
+// ---------------------------------------------------------------------------------------------
+// C08: the ORDER of the attributes of a state variable must not matter
+// ---------------------------------------------------------------------------------------------
+fn permutations(items: &[&str]) -> Vec<Vec<String>> {
+    if items.len() <= 1 {
+        return vec![items.iter().map(|s| s.to_string()).collect()];
+    }
+    let mut out = vec![];
+    for i in 0..items.len() {
+        let mut rest: Vec<&str> = items.to_vec();
+        let head = rest.remove(i);
+        for mut p in permutations(&rest) {
+            p.insert(0, head.to_string());
+            out.push(p);
+        }
+    }
+    out
+}
+
+/// one file per (type, visibility, override form, constant|immutable|none): every order of the present
+/// attributes; constructor assignment (immutable / none) or initialiser (constant); every second variable of
+/// a file is also written in a non-constructor function. Plus one file with everything.
+pub fn attribute_order_files() -> Vec<(String, String)> {
+    let mut files = vec![];
+    let mut all_vars = String::new();
+    let mut all_ctor = String::new();
+    let mut all_fn = String::new();
+    let mut uid = 0;
+    for (ty, val) in [("uint256", "1"), ("address", "address(1)"), ("bool", "true")] {
+        for vis in ["public", "internal", "private", ""] {
+            for ovr in ["", "override", "override(Base1)"] {
+                for m in ["constant", "immutable", ""] {
+                    let present: Vec<&str> = [vis, ovr, m].iter().filter(|a| !a.is_empty()).cloned().collect();
+                    let mut vars = String::new();
+                    let mut ctor = String::new();
+                    let mut wfn = String::new();
+                    for (i, perm) in permutations(&present).iter().enumerate() {
+                        uid += 1;
+                        let name = format!("ao{}", uid);
+                        let attrs = perm.join(" ");
+                        let sp = if attrs.is_empty() { "" } else { " " };
+                        let init = if m == "constant" { format!(" = {}", val) } else { String::new() };
+                        vars.push_str(&format!("    {}{}{} {}{};\n", ty, sp, attrs, name, init));
+                        if m != "constant" {
+                            ctor.push_str(&format!("        {} = {};\n", name, val));
+                        }
+                        if i % 2 == 1 {
+                            wfn.push_str(&format!("        {} = {};\n", name, val));
+                        }
+                    }
+                    let label = format!("{}:{}:{}:{}", ty, if vis.is_empty() { "default-visibility" } else { vis }, if ovr.is_empty() { "no-override" } else { ovr }, if m.is_empty() { "mutable" } else { m });
+                    files.push((label, format!("{}contract Base1 {{}}\ncontract AO is Base1 {{\n{}    constructor() {{\n{}    }}\n    function w() public {{\n{}    }}\n}}\n", H, vars, ctor, wfn)));
+                    all_vars.push_str(&vars);
+                    all_ctor.push_str(&ctor);
+                    all_fn.push_str(&wfn);
+                }
+            }
+        }
+    }
+    files.push(("everything".to_string(), format!("{}contract Base1 {{}}\ncontract AO is Base1 {{\n{}    constructor() {{\n{}    }}\n    function w() public {{\n{}    }}\n}}\n", H, all_vars, all_ctor, all_fn)));
+    files
+}
+
 pub fn corpus_c07(tier: &str, rng: &mut Rng) -> Vec<Case> {
     let mut out = vec![];
     let sd = Some(Det::UnprotectedSelfdestruct);
@@ -709,6 +943,12 @@ pub fn corpus_c07(tier: &str, rng: &mut Rng) -> Vec<Case> {
         let mut c = file_case(sd, &class, Kind::Mixed, "random", src);
         c.variant = format!("{}", i);
         later.push(c);
+    }
+    // two functions with the same name, one protected, one not: only the unprotected one is reported
+    for (pos, variant, src) in same_name_selfdestruct_files() {
+        let mut c = file_case(sd, "same-name", Kind::Mixed, &pos, src);
+        c.variant = variant;
+        out.push(c);
     }
     // free function / interface
     out.push(file_case(sd, "free-function", Near, "file", format!("{}function kill() public {{ selfdestruct(payable(msg.sender)); }}\n", H)));
@@ -747,7 +987,7 @@ pub fn corpus_c07(tier: &str, rng: &mut Rng) -> Vec<Case> {
         place_payload_nested(p, rng, n, &mut out);
     }
     for g in gen::sink() {
-        out.push(Case { src: g.src, focus: None, class: g.tag.clone(), kind: Kind::Mixed, pos: "file".into(), span: None, nested: vec![], variant: String::new() });
+        out.push(Case { src: g.src, focus: None, class: g.tag.clone(), kind: Kind::Mixed, pos: "file".into(), span: None, nested: vec![], variant: String::new(), key_tail: String::new() });
     }
     out.extend(later);
     let n = if tier == "thorough" { 1500 } else { 80 };
@@ -974,6 +1214,12 @@ pub fn corpus_c08(tier: &str, rng: &mut Rng) -> Vec<Case> {
     ));
     out.push(file_case(None, "variable-matrix", Kind::Mixed, "contract", var_matrix("contract")));
     out.push(file_case(None, "variable-matrix", Kind::Mixed, "library", var_matrix("library")));
+    // the order of the attributes of a declaration must not matter
+    for (label, src) in attribute_order_files() {
+        let mut c = file_case(None, "attribute-order-matrix", Kind::Mixed, "attribute-order", src);
+        c.variant = label;
+        out.push(c);
+    }
     // seeded compositions: 1..3 writes (random form, random target) in random positions of one file
     let n = if tier == "thorough" { 12000 } else { 400 };
     for i in 0..n {
@@ -1021,7 +1267,7 @@ pub fn corpus_c08(tier: &str, rng: &mut Rng) -> Vec<Case> {
         out.push(c);
     }
     for g in gen::sink() {
-        out.push(Case { src: g.src, focus: None, class: g.tag.clone(), kind: Kind::Mixed, pos: "file".into(), span: None, nested: vec![], variant: String::new() });
+        out.push(Case { src: g.src, focus: None, class: g.tag.clone(), kind: Kind::Mixed, pos: "file".into(), span: None, nested: vec![], variant: String::new(), key_tail: String::new() });
     }
     out
 }
@@ -1345,6 +1591,12 @@ pub fn corpus_c19(tier: &str, rng: &mut Rng) -> Vec<Case> {
         let (src, shape) = c19_program(headers[rng.below(3)], &picks);
         out.push(file_case(None, if k == 3 { "triple" } else { "quadruple" }, Kind::Mixed, &shape, src));
     }
+    // same-named functions in different contracts (one protected, one not)
+    for (pos, variant, src) in same_name_selfdestruct_files() {
+        if pos == "cross-contract" {
+            out.push(file_case(None, "same-name-functions", Kind::Mixed, &format!("same-name:{}", variant), src));
+        }
+    }
     // multi-item files of the other corpora
     for (name, t) in gen::FILE_POS {
         if t.matches("contract").count() + t.matches("interface").count() + t.matches("library").count() >= 2 {
@@ -1357,7 +1609,88 @@ pub fn corpus_c19(tier: &str, rng: &mut Rng) -> Vec<Case> {
     out
 }
 
+
+// ---------------------------------------------------------------------------------------------
+// multi-line canonical payloads (c02-loc): sub-nodes start on other lines than the construct
+// ---------------------------------------------------------------------------------------------
+pub const MULTILINE_PAYLOADS: &[Payload] = &[
+    e(Det::AddressBalance, "multiline-argument", Canon, "address(\n            this\n        )\n        .balance"),
+    e(Det::AddressBalance, "multiline-member", Canon, "address(this)\n            .balance"),
+    e(Det::AddressZero, "multiline-right", Canon, "x ==\n            address(\n                0\n            )"),
+    e(Det::AddressZero, "multiline-left", Canon, "address(0)\n            !=\n            x"),
+    e(Det::BoolEqualsBool, "multiline-right", Canon, "x\n            ==\n            true"),
+    e(Det::BoolEqualsBool, "multiline-left", Canon, "false\n            != x"),
+    e(Det::AssignUpdateArrayValue, "multiline-value", Canon, "arr[1] =\n            arr[1]\n            + x"),
+    e(Det::AssignUpdateArrayValue, "multiline-index", Canon, "arr[\n            1\n        ] = arr[1] - x"),
+    e(Det::CacheArrayLength, "multiline-member", Canon, "x <\n            arr\n            .length"),
+    s(Det::CacheArrayLength, "multiline-for", Canon, "for (\n            uint i = 0;\n            i <\n            arr\n            .length;\n            i++\n        ) { x = 1; }"),
+    e(Det::IncrementDecrement, "multiline-postfix", Canon, "x\n            ++"),
+    e(Det::IncrementDecrement, "multiline-prefix", Canon, "++\n            x"),
+    e(Det::IncrementDecrement, "multiline-prefix-dec", Canon, "--\n            arr[\n            0]"),
+    e(Det::MultipleRequire, "multiline-with-message", Canon, "require(\n            x > 0 &&\n            y > 0,\n            \"m\"\n        )"),
+    e(Det::MultipleRequire, "multiline-callee-alone", Canon, "require\n        (\n            x > 0\n            && y > 0\n        )"),
+    e(Det::MultipleRequire, "multiline-three-conditions", Canon, "require(x > 0\n            && y > 0\n            && x > y)"),
+    e(Det::OptimalComparison, "multiline-ge", Canon, "x\n            >=\n            y"),
+    e(Det::OptimalComparison, "multiline-le", Canon, "x\n            <= y"),
+    e(Det::ShiftMath, "multiline-mul", Canon, "x\n            *\n            2"),
+    e(Det::ShiftMath, "multiline-div", Canon, "x\n            / 4"),
+    e(Det::ShiftMath, "multiline-left-literal", Canon, "8\n            * x"),
+    e(Det::SolidityKeccak256, "multiline-argument", Canon, "keccak256(\n            abi.encode(x)\n        )"),
+    e(Det::SolidityKeccak256, "multiline-callee-alone", Canon, "keccak256\n        (x)"),
+    e(Det::SolidityMath, "multiline-add", Canon, "x\n            +\n            y"),
+    e(Det::SolidityMath, "multiline-sub", Canon, "x\n            - y"),
+    e(Det::SolidityMath, "multiline-mul-div", Canon, "x\n            * y\n            / 3"),
+    e(Det::UnsafeErc20Operation, "multiline-transfer", Canon, "tok\n            .transfer(a0[0], 1)"),
+    e(Det::UnsafeErc20Operation, "multiline-approve", Canon, "tok\n            .approve(x,\n            y)"),
+    e(Det::UnsafeErc20Operation, "multiline-chain", Canon, "reg\n            .token()\n            .transferFrom(x, y, 1)"),
+    e(Det::DivideBeforeMultiply, "multiline-mul", Canon, "x\n            / y\n            * 2"),
+    e(Det::DivideBeforeMultiply, "multiline-parenthesised", Canon, "(\n            x / y\n        )\n            * 2"),
+    e(Det::DivideBeforeMultiply, "multiline-assign-divide", Canon, "x /=\n            y\n            * 2"),
+    s(Det::UnprotectedSelfdestruct, "multiline-argument", Canon, "selfdestruct(\n            payable(msg.sender)\n        );"),
+    s(Det::UnprotectedSelfdestruct, "multiline-callee-alone", Canon, "suicide\n        (\n            address(0)\n        );"),
+];
+
+pub fn corpus_multiline() -> Vec<Case> {
+    let mut out = vec![];
+    for p in MULTILINE_PAYLOADS {
+        place_payload(p, &mut out);
+    }
+    let t = |det: Det, class: &str, src: &str| file_case(Some(det), class, Canon, "file", src.to_string());
+    // C06 / C07 / C08: declarations spread over several lines
+    let decl = "pragma\n    solidity\n    ^0.8.0;\ncontract A {\n    uint\n        private\n        pv;\n    uint\n        public\n        _pu;\n    uint\n        public\n        constant\n        KK = 1;\n    mapping(uint => uint)\n        internal\n        mp;\n    address[]\n        private\n        constant\n        _AK = 2;\n    function\n        f(uint a)\n        public\n        virtual\n        returns (uint)\n    {\n        return a;\n    }\n    function\n        _g()\n        external\n    {}\n    function\n        h()\n        private\n    {}\n    function f2() public {}\n    constructor\n    (\n    )\n    {\n    }\n}\ncontract B {\n    function\n        k\n        ()\n        public\n    {\n        selfdestruct(\n            payable(\n                msg.sender\n            )\n        );\n    }\n    constructor\n        ()\n        payable\n    {}\n}\n";
+    for d in [Det::PayableFunction, Det::PrivateConstant, Det::PrivateVarsLeadingUnderscore, Det::PrivateFuncLeadingUnderscore, Det::ConstructorOrder, Det::FloatingPragma, Det::UnprotectedSelfdestruct] {
+        out.push(t(d, "multiline-declarations", decl));
+    }
+    let c08 = "pragma solidity 0.8.10;\ncontract W {\n    uint\n        never;\n    uint\n        ctorOnly;\n    address\n        public\n        written;\n    constructor(\n        uint q\n    ) {\n        ctorOnly =\n            q;\n    }\n    function f(\n        uint[]\n            memory\n            p,\n        uint[]\n            memory\n            o,\n        address q\n    )\n        public\n    {\n        written\n            =\n            q;\n        o[\n            0\n        ]\n            = p[0];\n    }\n}\n";
+    for d in [Det::ConstantVariables, Det::ImmutableVariables, Det::MemoryToCalldata, Det::Sstore] {
+        out.push(t(d, "multiline-declarations", c08));
+    }
+    // C09
+    let long = "d".repeat(40);
+    for v in ["0.7.6", "0.8.10"] {
+        let src = format!(
+            "pragma solidity {};\ncontract V {{\n    using SafeMath for uint;\n    function f(uint a, uint b) public returns (uint c) {{\n        require(\n            a > b,\n            \"{}\"\n        );\n        require(a > b,\n            \"{}\"\n            \"tail\");\n        c = a\n            .add(b);\n        c = a\n            .sub(\n                b\n            )\n            .mul(c);\n    }}\n}}\n",
+            v, long, long
+        );
+        for d in [Det::SafeMathPre080, Det::SafeMathPost080, Det::StringErrors, Det::ShortRevertString] {
+            let mut c = t(d, "multiline-sites", &src);
+            c.pos = v.to_string();
+            out.push(c);
+        }
+    }
+    out
+}
+
 pub fn corpus_for(prop: &str, tier: &str, rng: &mut Rng) -> Vec<Case> {
+    let mut v = corpus_base(prop, tier, rng);
+    if ["c05", "c06", "c07", "c08"].contains(&prop) {
+        // multi-line canonical payloads of this property's detectors
+        v.extend(corpus_multiline().into_iter().filter(|c| c.focus.map(|d| d.prop()) == Some(prop)));
+    }
+    v
+}
+
+fn corpus_base(prop: &str, tier: &str, rng: &mut Rng) -> Vec<Case> {
     match prop {
         "c05" => corpus_c05(tier, rng),
         "c06" => corpus_c06(tier, rng),
